@@ -18,7 +18,7 @@ FragsScan == <<
     <<60, 77, 101, 84, 97, 47>>,                                             \*  2 "<MeTa/"
     <<60, 109, 101, 116, 97, 120, 32>>,                                      \*  3 "<metax "
     <<99, 104, 97, 114, 115, 101, 116, 61, 117, 116, 102, 45, 56>>,          \*  4 "charset=utf-8"
-    <<99, 104, 97, 114, 115, 101, 116, 61, 98, 111, 103, 117, 115>>,         \*  5 "charset=bogus"
+    <<60, 109, 101, 116, 97, 32, 99, 104, 97, 114, 115, 101, 116, 61, 107, 111, 105, 56, 45, 114, 62>>,   \*  5 "<meta charset=koi8-r>"
     <<62>>,                                                                  \*  6 ">"
     <<32>>,                                                                  \*  7 " "
     <<60, 33, 45, 45>>,                                                      \*  8 "<!--"
@@ -50,12 +50,14 @@ FragsAttr == <<
     <<120, 45, 117, 115, 101, 114, 45, 100, 101, 102, 105, 110, 101, 100>>,  \* 12 "x-user-defined"
     <<34>>,                                                                  \* 13 "
     <<39>>,                                                                  \* 14 '
-    <<32>>,                                                                  \* 15 " "
+    <<9>>,                                                                   \* 15 TAB
     <<47>>,                                                                  \* 16 "/"
     <<62>>,                                                                  \* 17 ">"
     <<61>>,                                                                  \* 18 "="
     <<60>>,                                                                  \* 19 "<"
-    <<120>> >>                                                               \* 20 "x"
+    <<120>>,                                                                 \* 20 "x"
+    <<32, 99, 104, 97, 114, 115, 101, 116, 61, 117, 116, 102, 45, 56>>,      \* 21 " charset=utf-8"
+    <<32, 61, 32>> >>                                                        \* 22 " = "
 FragsWindow == <<
     <<60, 109, 101, 116, 97, 32, 99, 104, 97, 114, 115, 101, 116, 61, 117, 116, 102, 45, 56, 62>>,           \* 1 "<meta charset=utf-8>"   (20 bytes)
     <<60, 109, 101, 116, 97, 32, 99, 104, 97, 114, 115, 101, 116, 61, 34, 117, 116, 102, 45, 56, 34>>,       \* 2 '<meta charset="utf-8"'  (21 bytes)
